@@ -62,6 +62,31 @@ class Path(object):
             return True
         return r == z3.sat
 
+    def implied_locally(self, c):
+        """True if c follows from the facts that speak only about the constants of c (a subset of the path condition:
+        sound for 'implied', cheap, and independent of unrelated hard facts)"""
+        def consts(e, acc):
+            stack = [e]
+            seen = set()
+            while stack:
+                x = stack.pop()
+                if x.get_id() in seen:
+                    continue
+                seen.add(x.get_id())
+                if z3.is_const(x) and x.decl().kind() == z3.Z3_OP_UNINTERPRETED:
+                    acc.add(str(x))
+                elif z3.is_app(x):
+                    stack.extend(x.children())
+            return acc
+        want = consts(c, set())
+        s = z3.Solver()
+        s.set('timeout', 5000)
+        for f in self.facts:
+            if consts(f, set()) <= want:
+                s.add(f)
+        s.add(z3.Not(c))
+        return s.check() == z3.unsat
+
     def check_feasible_now(self):
         self.n_checks += 1
         return self.solver.check() != z3.unsat
